@@ -6,6 +6,7 @@ import (
 	"fmt"
 
 	"github.com/skx/evalfilter/v2/code"
+	"github.com/skx/evalfilter/v2/object"
 	"github.com/skx/evalfilter/v2/vm"
 
 	"verif/internal/eng"
@@ -223,6 +224,7 @@ func c07(c *ev.Ctx) {
 	// other loops mentioning their names (the stream is shared with C02)
 	c02ExitHistories(c)
 	c07HostileHistories(c)
+	c07HostUpdatesInPlace(c)
 	// the host changes a record in place and hands the same pointer / map to the next run
 	// (the stream is shared with C04)
 	c04SameReference(c)
@@ -384,6 +386,85 @@ func c07Fixed(c *ev.Ctx) {
 				c.Case(fmt.Sprint(id, noOpt, si), true)
 				if got != st.want || evr.ScopeDepth() != 0 {
 					c.Violation(id, id, map[string]interface{}{"summary": fmt.Sprintf("%s (noopt=%v) step %d gives %s (open scopes %d), expected %s", tc.script, noOpt, si+1, got, evr.ScopeDepth(), st.want), "script": tc.script})
+					break
+				}
+			}
+		}
+	}
+}
+
+// c07HostUpdatesInPlace: the host keeps the hash and the array it handed over with
+// SetVariable and updates them in place between runs (a value replaced, a key renamed, an
+// entry added, an element replaced, an element appended). "The variables currently stored"
+// are what the next run sees: whatever an earlier run computed from them (their printed
+// form, their key list, their iteration order) must not be served again. Every run is
+// compared with a fresh evaluator that holds deep copies of the current values.
+func c07HostUpdatesInPlace(c *ev.Ctx) {
+	scripts := []string{
+		`return string(quota) + " / " + join(keys(quota), ",");`,
+		`n = 0; foreach k, v in quota { t(k, v); n = n + v; } return n;`,
+		`return [len(quota), quota["bob"], quota.alice, quota, keys(quota)];`,
+		`return string(list) + string(sort(list)) + string(reverse(list)) + string(len(list));`,
+		`foreach i, e in list { t(i, e); } return [list[0], list[len(list) - 1], 99 in list];`,
+		`return sprintf("%v %s %d", quota, list, len(keys(quota)));`,
+		`function show(h, l) { return upper(string(h)) + lower(string(l)) + string(len(string(h))); } return show(quota, list);`,
+	}
+	key := func(k string) object.HashKey { return (&object.String{Value: k}).HashKey() }
+	for si, script := range scripts {
+		for _, noOpt := range []bool{false, true} {
+			id := fmt.Sprintf("host-updates-in-place/%d/%v", si, noOpt)
+			if !c.Want(id) {
+				continue
+			}
+			quota := eng.ToObject(model.Hash(model.HashEnt{Key: model.Str("alice"), Val: model.Int(10)}, model.HashEnt{Key: model.Str("bob"), Val: model.Int(20)})).(*object.Hash)
+			list := &object.Array{Elements: []object.Object{&object.Integer{Value: 3}, &object.Integer{Value: 1}, &object.Integer{Value: 2}}}
+			a, err := eng.New(script, eng.Options{NoOptimize: noOpt, ObjVars: map[string]object.Object{"quota": quota, "list": list}})
+			if err != nil {
+				c.Violation(id, "prepare", map[string]interface{}{"summary": "Prepare failed: " + err.Error(), "script": script})
+				continue
+			}
+			updates := []struct {
+				what string
+				do   func()
+			}{
+				{"nothing yet", func() {}},
+				{"the value of bob replaced (same number of entries)", func() {
+					quota.Pairs[key("bob")] = object.HashPair{Key: &object.String{Value: "bob"}, Value: &object.Integer{Value: 99}}
+				}},
+				{"alice renamed to carol (same number of entries)", func() {
+					delete(quota.Pairs, key("alice"))
+					quota.Pairs[key("carol")] = object.HashPair{Key: &object.String{Value: "carol"}, Value: &object.Integer{Value: 10}}
+				}},
+				{"first element of the list replaced", func() { list.Elements[0] = &object.Integer{Value: 99} }},
+				{"an entry added and an element appended", func() {
+					quota.Pairs[key("dave")] = object.HashPair{Key: &object.String{Value: "dave"}, Value: &object.Integer{Value: 1}}
+					list.Elements = append(list.Elements, &object.Integer{Value: 7})
+				}},
+				{"an entry removed, the list shortened", func() {
+					delete(quota.Pairs, key("bob"))
+					list.Elements = list.Elements[:2]
+				}},
+				{"every value replaced by 5", func() {
+					for k, p := range quota.Pairs {
+						quota.Pairs[k] = object.HashPair{Key: p.Key, Value: &object.Integer{Value: 5}}
+					}
+					list.Elements[1] = &object.Integer{Value: 5}
+				}},
+			}
+			for ui, u := range updates {
+				u.do()
+				b, err := eng.New(script, eng.Options{NoOptimize: noOpt})
+				if err != nil {
+					break
+				}
+				a.CopyVarsTo(b)
+				oa, ob := a.Exec(nil), b.Exec(nil)
+				c.Case(fmt.Sprint(id, ui), true)
+				va := runView{Res: oa.Desc(), Trace: oa.Trace}
+				vb := runView{Res: ob.Desc(), Trace: ob.Trace}
+				if oa.Panicked || ob.Panicked || !sameView(va, vb) {
+					c.Violation(id, "a value the host updated in place is served from an earlier run", map[string]interface{}{
+						"summary": fmt.Sprintf("step %d (%s): the much-used evaluator gives %s %s, a fresh one holding copies of the same variables gives %s %s\n  script: %s", ui+1, u.what, va, errText(oa.Err), vb, errText(ob.Err), script), "script": script})
 					break
 				}
 			}
